@@ -52,19 +52,19 @@ func C01(o *core.Options) int {
 						continue
 					}
 					strong, weak := w.Holds(n.Obj, n.Rel, sub, rc)
-					got := env.Check(n.Obj, n.Rel, sub, rc, nil)
+					got := env.Check(n.Obj, n.Rel, sub, rc, w.Contextual)
 					r.Eval(1)
 					if strong != ref.F || weak != ref.F {
 						r.Nontrivial(core.Hash(w.M.String(), e2.TuplesStr(w.Tuples), sub, e2.CtxStr(rc), n.Obj, n.Rel))
 					}
 					v := e2.Verdict(got.V, strong, weak)
-					if v == "" {
+					if v == "" || e2.AltAccepts(w, got.V, n.Obj, n.Rel, sub, rc) {
 						continue
 					}
 					// re-decide: the deviation must show again in 5 re-executions
 					again := 0
 					for i := 0; i < 5; i++ {
-						if g := env.Check(n.Obj, n.Rel, sub, rc, nil); e2.Verdict(g.V, strong, weak) == v {
+						if g := env.Check(n.Obj, n.Rel, sub, rc, w.Contextual); e2.Verdict(g.V, strong, weak) == v {
 							again++
 						}
 					}
@@ -73,7 +73,11 @@ func C01(o *core.Options) int {
 						r.Anomaly(c)
 						continue
 					}
-					r.Violate(e2.DecisionSignature(v, w, n.Obj, n.Rel, rc),
+					sg := e2.DecisionSignature(v, w, n.Obj, n.Rel, rc)
+					if w.Alt != nil && !strings.Contains(sg, "/") {
+						sg += "/contextual-tuple-with-the-key-of-a-stored-tuple"
+					}
+					r.Violate(sg,
 						fmt.Sprintf("Check(%s#%s@%s ctx=%s)=%s ref=%s/%s model{%s} tuples{%s}", n.Obj, n.Rel, sub, e2.CtxStr(rc), got, strong, weak, w.M, e2.TuplesStr(w.Tuples)), c)
 				}
 			}
@@ -81,6 +85,13 @@ func C01(o *core.Options) int {
 		if w.HasTupleCycle() {
 			r.Count("worlds_with_tuple_cycle", 1)
 		}
+	}
+	if os.Getenv("VERIF_ONLY_SHADOW") != "" { // development aid
+		if !o.Thorough() {
+			e2.ShadowExtraStride = 6
+		}
+		e2.ShadowSweep(r, models, opts, func(env *e2.Env, w *ref.World) { run(env, w) })
+		return r.Finish()
 	}
 	e2.Sweep(r, models, opts, func(env *e2.Env, w *ref.World) {
 		if len(w.Tuples) == 0 {
@@ -130,6 +141,11 @@ func C01(o *core.Options) int {
 		run(env, w)
 	})
 	nodes = save
+	// contextual tuple with the key of a stored tuple (different condition/context)
+	if !o.Thorough() {
+		e2.ShadowExtraStride = 6
+	}
+	e2.ShadowSweep(r, models, opts, func(env *e2.Env, w *ref.World) { run(env, w) })
 	// leftover tuples: one tuple invalid for M, plus |T|<=1
 	lo := opts
 	lo.K = 1
